@@ -132,6 +132,10 @@ class CallMixin:
         if isinstance(v, ClassV):
             ci = self.class_info(v.qual)
             if ci is not None:
+                for c_ in self.index.mro(ci):
+                    if attr in c_.nested:
+                        yield ClassV(c_.nested[attr].qual), st
+                        return
                 if attr in ci.nested:
                     yield ClassV(ci.nested[attr].qual), st
                     return
@@ -142,7 +146,7 @@ class CallMixin:
                 # enum-like class constants
                 for n in ci.node.body:
                     if isinstance(n, ast.Assign) and any(isinstance(t, ast.Name) and t.id == attr for t in n.targets):
-                        yield EnumConst(v.qual, attr), st
+                        yield self.lift(EnumConst(v.qual, attr)), st
                         return
             raise OutOfSubset('class attribute %s.%s' % (v.qual, attr))
         if isinstance(v, SV) and v.t.kind == 'tuple' and v.t.name:
